@@ -34,7 +34,8 @@ def checkOptMap (kvs okv : List (String × String)) : String := Id.run do
   let some d := (lookup kvs "d").bind parseBdd | return "FAIL PARSE d"
   let some q := (lookup kvs "q").bind parseNatList | return "FAIL PARSE q"
   let some ws := (lookup kvs "w").bind parsePairs | return "FAIL PARSE w"
-  let w : Weights Rat := fun v => let (l, h) := ws.getD v (0, 0); (mkRat l 8, mkRat h 8)
+  let den := ((lookup kvs "den").bind parseNat?).getD 8
+  let w : Weights Rat := fun v => let (l, h) := ws.getD v (0, 0); (mkRat l den, mkRat h den)
   let vars := List.range n
   let best := mapSpec d.eval q vars w
   for (key, isBB) in [("mm", false), ("bb", true)] do
